@@ -730,6 +730,58 @@ func opC18Rand(raw json.RawMessage, o *Out) {
 			desc := fmt.Sprintf("antipodal-origin template %v critical vertices within %g of the antipode, jitter %g, frame x=%v: vertices %v", t, delta, jit, ctr, vs)
 			c18Turn(rec, vs, "loop/antipodal", desc, rnd)
 			c18Area(rec, vs, "loop/antipodal", desc, 2*math.Pi, 2*math.Pi, nil, nil, false)
+		case "nearpi":
+			// An edge ab within gap of 180 degrees lying exactly in a coordinate plane, its exact midpoint m in
+			// the same plane, and a third vertex p off that plane: the region (p,a,b) is exactly the union of
+			// (p,a,m) and (p,m,b), whose edges are all short.  TrueCentroid is additive over the subdivision.
+			gap := []float64{1e-2, 1e-3, 1e-4, 1e-5, 3e-6, 1e-6, 3e-7, 1e-7, 2.5e-8}[rnd.Intn(9)]
+			th0 := []float64{0, 0.3, 1.1, 2.5, -2}[rnd.Intn(5)]
+			perm := rnd.Intn(3)
+			inPlane := func(th float64) s2.Point {
+				c, sn := math.Cos(th), math.Sin(th)
+				switch perm {
+				case 0:
+					return s2.Point{Vector: r3.Vector{X: c, Y: sn, Z: 0}.Normalize()}
+				case 1:
+					return s2.Point{Vector: r3.Vector{X: 0, Y: c, Z: sn}.Normalize()}
+				}
+				return s2.Point{Vector: r3.Vector{X: sn, Y: 0, Z: c}.Normalize()}
+			}
+			a, b, m := inPlane(th0), inPlane(th0+math.Pi-gap), inPlane(th0+(math.Pi-gap)/2)
+			var pp s2.Point
+			switch rnd.Intn(4) {
+			case 0: // the pole of the plane
+				pp = s2.Point{Vector: a.Cross(m.Vector).Normalize()}
+			case 1:
+				pp = s2.Point{Vector: a.Cross(m.Vector).Normalize().Mul(-1)}
+			default:
+				pp = c18RandPoint(rnd)
+			}
+			if math.Abs(pp.Dot(a.Cross(m.Vector).Normalize())) < 0.05 {
+				continue
+			}
+			if sub, ok := rec.next(); ok {
+				// no error bound is documented for TrueCentroid; side/sin(side) of the long side has a relative
+				// error of ~eps/gap, so the tolerance is 1e-13 + 4e-14/gap (the seeded-style loss of half the
+				// digits gives 1e-8/gap and more)
+				tol := 1e-13 + 4e-14/gap
+				whole := s2.TrueCentroid(pp, a, b).Vector
+				parts := s2.TrueCentroid(pp, a, m).Add(s2.TrueCentroid(pp, m, b).Vector)
+				lw := s2.LoopFromPoints([]s2.Point{pp, a, b}).Centroid().Vector
+				lp := s2.LoopFromPoints([]s2.Point{pp, a, m, b}).Centroid().Vector
+				pg := s2.PolygonFromLoops([]*s2.Loop{s2.LoopFromPoints([]s2.Point{pp, a, b})})
+				if !pg.Loop(0).IsNormalized() {
+					pg = s2.PolygonFromLoops([]*s2.Loop{s2.LoopFromPoints([]s2.Point{b, a, pp})})
+				}
+				pc := pg.Centroid().Vector
+				if pc.Dot(parts) < 0 {
+					pc = pc.Mul(-1) // the polygon was built from the reversed (normalized) order
+				}
+				rec.add(sub, "triangle/nearpi", fmt.Sprintf("edge a=%v b=%v within %g of 180 degrees, midpoint m=%v, p=%v: TrueCentroid(p,a,b)=%v, (p,a,m)+(p,m,b)=%v, Loop[p,a,b].Centroid=%v, Loop[p,a,m,b].Centroid=%v, Polygon centroid %v", a, b, gap, m, pp, whole, parts, lw, lp, pc),
+					map[string]any{"ev": "cadd", "whole": c18K3(whole), "loop3": c18K3(lw), "loop4": c18K3(lp), "poly": c18K3(pc),
+						"lo": [3]emb.Key{c18K(parts.X - tol), c18K(parts.Y - tol), c18K(parts.Z - tol)},
+						"hi": [3]emb.Key{c18K(parts.X + tol), c18K(parts.Y + tol), c18K(parts.Z + tol)}})
+			}
 		case "longedge":
 			// k points spaced around a great circle, pushed to one side by a small amount:
 			// edges close to 180 degrees for k = 2 (plus one extra vertex) and hemisphere-like loops
